@@ -596,6 +596,9 @@ func (l *IPFSLog) Join(otherLog iface.IPFSLog, size int) (iface.IPFSLog, error) 
 
 	if size > -1 {
 		tmp := l.values().Slice()
+		if size > len(tmp) {
+			size = len(tmp)
+		}
 		tmp = tmp[len(tmp)-size:]
 
 		entries := entry.NewOrderedMapFromEntries(tmp)
